@@ -4,6 +4,8 @@ CONSTANTS
   MaxBody = 0
   Faults = 1
   Stale = {1}
+  NNames = 4
+  AnyName = FALSE
   DirMissing = FALSE
   AnySplit = TRUE
   KeepHist = FALSE
